@@ -508,6 +508,19 @@ func touches(list []ast.Stmt, tf *token.File, patches *[]patch, info *types.Info
 							}
 						}
 					}
+					// v.Lock(), v.mu.Unlock(), once.Do(f), pool.Get(): using a
+					// synchronisation object (possibly embedded in v) is not a
+					// data access to v. Scan the arguments only.
+					if sel, ok := x.Fun.(*ast.SelectorExpr); ok {
+						if s, ok := info.Selections[sel]; ok {
+							if fn, ok := s.Obj().(*types.Func); ok && fn.Pkg() != nil && (fn.Pkg().Path() == "sync" || fn.Pkg().Path() == "sync/atomic") {
+								for _, a := range x.Args {
+									scan(a)
+								}
+								return false
+							}
+						}
+					}
 				case *ast.Ident:
 					if n, ok := ids[info.Uses[x]]; ok {
 						reads[n] = true
